@@ -93,6 +93,12 @@ def register(reg):
                              f"{f} * (len(yielded[2]) // {f}) == len(yielded[2]) and "
                              f"forall(i, 0, len(yielded[2]) // {f}, {body}))", "P"))
     c.end = [("coverage", "goff + S == N", "P")]
+    # helper clauses (H) the streaming consumers of base.py lean on (they index their output by ii*gulp)
+    c.yields.append(("H:offset", "goff == _nyield * (G - S)", "H"))
+    c.yields.append(("H:gulp", "implies(_nyield >= 1, G == old(gulp))", "H"))
+    # consumer-side view (stmt.for_generator): the clauses above, restated over ghost functions boff/bn
+    c.gen_spec = {"G": "G", "S": "S", "N": "N", "start": "start", "nchans": "self._header.nchans", "gulp": "gulp"}
+    c.gen_requires = ["gulp >= 1", "start >= 0", "N >= 1", "start + N <= self._header.nsamples"]
     c.loops["0:ii_block_skip"] = LoopSpec([
         ("RI", FRI),
         ("ghost", "_nyield == _k0 and implies(_k0 < len(blocks), goff == _k0 * (gulp - skipback)) and "
